@@ -72,6 +72,17 @@ func (a *asset) LedgerBackendID() multi.LedgerBackendID { return a.id }
 // ---------------------------------------------------------------------------------------------
 // scripted ledgers
 
+// plainAsset is a channel asset that is not a multi-ledger asset.
+type plainAsset struct{ n uint64 }
+
+func (a *plainAsset) MarshalBinary() ([]byte, error) { return []byte{byte(a.n)}, nil }
+func (a *plainAsset) UnmarshalBinary([]byte) error   { return errors.New("not needed") }
+func (a *plainAsset) Equal(b channel.Asset) bool {
+	o, ok := b.(*plainAsset)
+	return ok && o.n == a.n
+}
+func (a *plainAsset) Address() []byte { return []byte{byte(a.n)} }
+
 type callLog struct {
 	Ledger     string
 	Method     string
@@ -264,6 +275,21 @@ func assetList(em *childrun.Emitter, rng *rand.Rand, budget int, sample bool) in
 		if !seen[l.String()] {
 			seen[l.String()] = true
 			distinct = append(distinct, l.String())
+		}
+	}
+	// an asset that names no ledger at all (a plain channel asset in a multi-ledger channel): no
+	// registered adjudicator or funder can serve it, so the request has to fail
+	if rng.Intn(6) == 0 {
+		i := rng.Intn(nAssets)
+		assets[i] = &plainAsset{n: uint64(i)}
+		names[i] = "plain-asset-without-a-ledger"
+		seen, distinct = map[string]bool{}, nil
+		for j, a := range assets {
+			if ma, ok := a.(*asset); ok && !seen[names[j]] {
+				_ = ma
+				seen[names[j]] = true
+				distinct = append(distinct, names[j])
+			}
 		}
 	}
 	D := len(distinct)
@@ -526,7 +552,10 @@ func oneCase(em *childrun.Emitter, assets []channel.Asset, distinct []string, c 
 		}
 	}
 	allRegistered := len(c.Registered) == len(distinct)
-	wantOK := allRegistered && len(c.Failing) == 0
+	wantOK := allRegistered && len(c.Failing) == 0 && !contains(c.Assets, "plain-asset-without-a-ledger")
+	if contains(c.Assets, "plain-asset-without-a-ledger") {
+		em.Count("requests_with_an_asset_that_names_no_ledger", 1)
+	}
 	if (retErr == nil) != wantOK {
 		fail("result", fmt.Sprintf("returned %v, but all ledgers registered=%v and failing sub-calls=%v", retErr, allRegistered, c.Failing))
 	}
@@ -547,7 +576,7 @@ func oneCase(em *childrun.Emitter, assets []channel.Asset, distinct []string, c 
 				ego = cl
 			}
 		}
-		othersOK := true
+		othersOK := !contains(c.Assets, "plain-asset-without-a-ledger") // such a request cannot be served at all
 		for _, l := range distinct {
 			if l == egoName {
 				continue
